@@ -562,8 +562,9 @@ pub fn encode_json_value_to_metadatum(
                 let mut map = MetadataMap::new();
                 for (raw_key, value) in json_obj {
                     let key = if schema == MetadataJsonSchema::BasicConversions {
-                        match raw_key.parse::<i128>() {
-                            Ok(x) => TransactionMetadatum::new_int(&Int(x)),
+                        // a key is an integer only if it is one a metadatum can hold (-2^64 ..= 2^64 - 1); anything else stays text
+                        match Int::from_str(&raw_key) {
+                            Ok(x) => TransactionMetadatum::new_int(&x),
                             Err(_) => encode_string(raw_key, schema)?,
                         }
                     } else {
